@@ -154,11 +154,11 @@ def other(ctx, case, cfg, seed, name):
         inst = S.SMTWTP.extract(td0, 0)
         bound = cfg["n"] + 2
     elif name == "flp":
-        inst = dict(locs=td0["locs"][0].tolist(), k=int(td0["to_choose"].reshape(1, -1)[0, 0]))
+        inst = dict(locs=td_in["locs"][0].tolist(), k=int(td_in["to_choose"].reshape(1, -1)[0, 0]))
         bound = inst["k"] + 1
     elif name == "mcp":
-        inst = dict(membership=[[int(x) for x in row if x > 0] for row in td0["orig_membership"][0].tolist()], weights=td0["orig_weights"][0].tolist(),
-                    k=int(td0["n_sets_to_choose"].reshape(1, -1)[0, 0]))
+        inst = dict(membership=[[int(x) for x in row if x > 0] for row in td_in["membership"][0].tolist()], weights=td_in["weights"][0].tolist(),
+                    k=int(td_in["n_sets_to_choose"].reshape(1, -1)[0, 0]))
         bound = inst["k"] + 1
     else:
         raise KeyError(name)
